@@ -65,7 +65,7 @@ def plan(tier, seed):
     if tier == 'quick':
         n_env, n_ctor, parts, secs = 30000, 12000, 6, 40
     else:
-        n_env, n_ctor, parts, secs = 1_500_000, 400_000, 14, 560
+        n_env, n_ctor, parts, secs = 7_000_000, 2_000_000, 14, 560
     shards = []
     for p, (f, n) in enumerate(split(n_env, parts)):
         shards.append({'name': f'env{p}', 'mode': 'nrt', 'kind': 'env',
